@@ -73,6 +73,9 @@ func TestVerif(t *testing.T) {
 	}
 	outPath := os.Getenv("VERIF_OUT")
 	start := time.Now()
+	// process-wide singletons of the code under test (token codec, Arrow)
+	// must be created outside any bubble
+	checks.DefaultWarm()
 	if info.Warm != nil {
 		info.Warm()
 	}
